@@ -596,8 +596,13 @@ func docText(doc []sx.S) (string, []int) {
 		if a, ok := fl[2].(string); ok && a != "-" {
 			b.WriteString(" on " + typeName(sx.Int(fl[2])))
 		}
+		body := fl[3:]
+		if len(body) > 0 && sx.Head(body[0]) == "fdirs" { // directive uses on the definition itself
+			b.WriteString(dirsText(sx.List(body[0])[1:]))
+			body = body[1:]
+		}
 		b.WriteString(" {")
-		for _, s := range fl[3:] {
+		for _, s := range body {
 			b.WriteString(" ")
 			selText(&b, s, &order)
 		}
